@@ -98,8 +98,15 @@ class MemGate:
             self.cv.notify_all()
 
 
+# loop invariants, callee preconditions and frames carry the safety proof as well (memory safety inside a loop body is
+# established under the invariant): when one of them fails, the safety property of the unit is violated too
+SUPPORTS_SAFETY = {'loop_invariant_base', 'loop_invariant_step', 'precondition', 'assigns', 'loop_assigns'}
+
+
 def relevant(meta, prop, ob):
     s = R.is_safety(ob['class'])
+    if prop in meta['safety'] and ob['class'] in SUPPORTS_SAFETY:
+        return True
     return (prop in meta['properties'] and not s) or (prop in meta['safety'] and s)
 
 
